@@ -4,7 +4,9 @@ from corebase import CHECK_MODS, CASE_TYPE, CORR, run_impl, encode, shrink  # no
 
 PROP = 'C03'
 PROPCHK = 'C03_prop'
-THEOREMS = ['C03_write_preserves_chain', 'C03_write_frames_others', 'C03_reachable_chain', 'C03_example']
+THEOREMS = ['C03_write_preserves_chain', 'C03_write_frames_others', 'C03_reachable_chain', 'C03_hierarchy_pass_closes_superseded',
+            'C03_hierarchy_pass_frame', 'C03_machine_applies_the_pass', 'C03_hierarchy_hypotheses_decidable',
+            'C03_hierarchy_example', 'C03_example']
 RULE = ('seeded user programs under strategy=validity (blog shape with relationships, composite/string-key shape with an '
         'aliased column; class-level overrides of the transaction / end-transaction column names; all plugin subsets; autoflush on/off; key pools of 2-3 keys per class so that delete + re-insert in '
         'one and in several transactions, repeated flushes and interleaved entities are frequent) are run on the real code; '
